@@ -499,6 +499,14 @@ def enc_string(b):
     return out + b"\0" * (-len(out) % 4)
 
 
+def tl2size(n):
+    if n < 254:
+        return bytes([n])
+    if n < 254 + 65536:
+        return b"\xfe" + (n - 254).to_bytes(2, "little")
+    return b"\xff" + n.to_bytes(8, "little")
+
+
 HOSTILE_STR = [b"", b"a", b"\xff", b"q\"\\\n\t\x00", b"x" * 253, b"y" * 254, b"z" * 255, b"w" * 256, "ключ".encode(), b"\xe2\x80\xa8", b"abc", b"NaN"]
 
 
@@ -554,9 +562,17 @@ class RefCodec:
         if name == "long":
             return struct.pack("<q", r.pick([0, 1, -1, 2 ** 63 - 1, -2 ** 63, (r.next() & 0xffffffffffffffff) - 2 ** 63]))
         if name == "float":
-            return r.pick([b"\0\0\0\0", b"\0\0\x80\x3f", b"\0\0\0\x80", b"\0\0\x80\x7f", b"\x01\0\xc0\x7f", struct.pack("<I", r.next() & 0xffffffff)])
+            v = r.pick([b"\0\0\0\0", b"\0\0\x80\x3f", b"\0\0\0\x80", b"\0\0\x80\x7f", b"\x01\0\xc0\x7f", struct.pack("<I", r.next() & 0xffffffff)])
+            if v == b"\0\0\0\x80" and not r.chance(1, 6):  # -0.0 is finding F5 (dropped as empty): kept rare so that it does not shadow everything else
+                v = struct.pack("<I", (r.next() & 0x7fffffff) | 0x3f000000)
+            return v
         if name == "double":
-            return r.pick([b"\0" * 8, b"\0" * 6 + b"\xf0\x3f", b"\0" * 7 + b"\x80", b"\0" * 6 + b"\xf0\x7f", struct.pack("<Q", r.next() & 0xffffffffffffffff)])
+            v = r.pick([b"\0" * 8, b"\0" * 6 + b"\xf0\x3f", b"\0" * 7 + b"\x80", b"\0" * 6 + b"\xf0\x7f", struct.pack("<Q", r.next() & 0xffffffffffffffff)])
+            if v == b"\0" * 7 + b"\x80" and not r.chance(1, 6):
+                v = struct.pack("<Q", (r.next() & 0x7fffffffffffffff) | 0x3f00000000000000)
+            return v
+        if r.chance(1, 150):
+            return bytes([97 + r.below(26)]) * r.pick([65789, 65790, 65791, 70000])  # around the 2-byte / 8-byte TL2 size boundary
         return r.pick(HOSTILE_STR) if r.chance(3, 4) else bytes(r.below(256) for _ in range(r.below(40)))
 
     def fields_value(self, fields, penv, depth):
@@ -692,6 +708,99 @@ class RefCodec:
         out = []
         self.enc_decl(d, v, out, boxed or d.kind in ("union", "enum"))
         return b"".join(out)
+
+    # ---- TL2 encoding of TL1-origin types (the documented TL2 view: docs/TL2Primer.pdf + DESIGN appendix A) ---------------
+    def enc2(self, t, v, cenv, opt):
+        """TL2 bytes of value v; opt: the position allows leaving an empty value out (returns b"")"""
+        k = t.kind
+        if k in ("prim", "boxedprim"):
+            if t.name.lower() == "string":
+                return b"" if (opt and not v) else tl2size(len(v)) + v
+            if t.name.lower() in ("float", "double") and v == b"\0" * (len(v) - 1) + b"\x80":
+                self.saw_negative_zero = True
+            return b"" if (opt and v == b"\0" * len(v)) else v
+        if k == "nat":
+            return b"" if (opt and v == 0) else struct.pack("<I", v & 0xffffffff)
+        if k == "bool":
+            return b"" if (opt and not v) else (b"\1" if v else b"\0")
+        if k == "true":
+            return b"" if opt else b"\0"
+        if k == "vector":
+            return self.arr2(t.elem, v, cenv, opt)
+        if k == "tuple":
+            return self.arr2(t.elem, v, cenv, opt)
+        if k == "maybe":
+            if v is None:
+                return b"" if opt else b"\0"
+            x = self.enc2(t.elem, v[1], cenv, True)
+            body = bytes([0x01 | (0x02 if x else 0)]) + b"\1" + x
+            return tl2size(len(body)) + body
+        if k == "dict":
+            kt = T("prim", name="string" if t.key == "str" else "int", spelling="")
+            elems = [self.obj2(self.body2([(kt, key, False, None), (t.elem, val, False, None)], cenv), False) for key, val in v]
+            return self.arr2_raw(elems, opt)
+        if k == "pair":
+            return self.obj2(self.body2([(t.a, v[0], False, None), (t.b, v[1], False, None)], cenv), opt)
+        d = t.decl
+        c2 = {p: (a.kind == "const" or (a.kind == "param" and cenv.get(a.val, False))) for (p, _), a in zip(d.params, t.args)}
+        return self.enc2_decl(d, v, c2, opt)
+
+    def arr2_raw(self, elems, opt):
+        if not elems:
+            return b"" if opt else b"\0"
+        body = tl2size(len(elems)) + b"".join(elems)
+        return tl2size(len(body)) + body
+
+    def arr2(self, elem, v, cenv, opt):
+        return self.arr2_raw([self.enc2(elem, e, cenv, False) for e in v], opt)
+
+    def obj2(self, body, opt):
+        if not body:
+            return b"" if opt else b"\0"
+        return tl2size(len(body)) + body
+
+    def body2(self, items, cenv, variant_index=0):
+        """items: (type, value | ABSENT, masked, array?) in slot order; returns the object body (mask blocks + field bytes)"""
+        blocks = [[0, b""]]
+        if variant_index:
+            blocks[0][0] |= 1
+            blocks[0][1] += tl2size(variant_index)
+        for i, (t, v, masked, is_arr) in enumerate(items):
+            slot = i + 1
+            while len(blocks) <= slot // 8:
+                blocks.append([0, b""])
+            if v is ABSENT:
+                continue
+            if is_arr:
+                enc = lambda o: self.arr2(t, v, cenv, o)
+            else:
+                enc = lambda o: self.enc2(t, v, cenv, o)
+            if masked:
+                data = b"" if (t.kind == "true" and not is_arr) else enc(False)
+                setbit = True
+            else:
+                data = enc(True)
+                setbit = bool(data)
+            if setbit:
+                blocks[slot // 8][0] |= 1 << (slot % 8)
+                blocks[slot // 8][1] += data
+        while blocks and blocks[-1][0] == 0 and not blocks[-1][1]:
+            blocks.pop()
+        return b"".join(bytes([m]) + dta for m, dta in blocks)
+
+    def fields_items2(self, vals):
+        return [(f.typ, v, bool(f.mask), (f.arr is not None) or None) for f, v in vals]
+
+    def enc2_decl(self, d, v, cenv, opt):
+        if v[0] == "typedef":
+            return self.enc2(d.inner, v[1], cenv, opt)
+        if v[0] == "struct":
+            return self.obj2(self.body2(self.fields_items2(v[1]), cenv), opt)
+        return self.obj2(self.body2(self.fields_items2(v[2]), cenv, variant_index=v[1]), opt)
+
+    def encode_item_tl2(self, d, v):
+        self.saw_negative_zero = False
+        return self.enc2_decl(d, v, {}, False)
 
     def encode_function(self, fn, vals):
         out = [struct.pack("<I", fn.tag)]
